@@ -49,7 +49,13 @@ fn play(cfg: &WorldCfg, sets: &[[AssetInfo; 2]], want_desc: bool, key: u64) -> C
         // creation parameters vary from pair to pair (derived from the position): a listing must not
         // depend on requirements, commission or LP decimals
         let req_i = CreatePairRequirements {
-            whitelist: match i % 4 { 0 => vec![], 1 => vec![fw.w.actors[0].clone()], 2 => fw.w.actors.clone(), _ => vec![fw.w.actors[1].clone(), fw.w.actors[1].clone()] },
+            // (every 13th pair, from the 3rd on, has a LONG whitelist of 129..168 addresses: whatever a pair's
+            // record holds, it is one entry of the listing)
+            whitelist: if i % 13 == 2 {
+                (0..129 + (i % 40)).map(|k| cosmwasm_std::Addr::unchecked(format!("listed{}", k))).collect()
+            } else {
+                match i % 4 { 0 => vec![], 1 => vec![fw.w.actors[0].clone()], 2 => fw.w.actors.clone(), _ => vec![fw.w.actors[1].clone(), fw.w.actors[1].clone()] }
+            },
             first_asset_minimum: Uint128::new((i as u128 % 3) * 1000),
             second_asset_minimum: Uint128::new((i as u128 % 5) * 7),
         };
